@@ -210,6 +210,58 @@ func runC33(c *core.Ctx) {
 		}
 	}
 	c.Floor("C33/what-was-tested-is-what-is-counted", 8)
+	// S6: every hash the selection loop puts into the body is counted. In createAndProcessMiniBlocksFromMe
+	// a pass that appends a hash to a miniblock, or that classifies the transaction as failed (its hash
+	// goes into the invalid-transactions miniblock), reaches the next pass only through AddNumTxs.
+	if fn := anchorM(c, pkg, "transactions", "createAndProcessMiniBlocksFromMe"); fn != nil {
+		counts := func(in ssa.Instruction) bool {
+			cc := core.CallOf(in)
+			return cc != nil && cc.IsInvoke() && cc.Method.Name() == "AddNumTxs"
+		}
+		var starts []ssa.Instruction
+		var what []string
+		core.Instrs(fn, func(in ssa.Instruction) {
+			l := core.InnermostLoop(fn, in.Block())
+			if l == nil {
+				return
+			}
+			// a store of an append result into a TxHashes field
+			if st, ok := in.(*ssa.Store); ok {
+				if fa, isFa := st.Addr.(*ssa.FieldAddr); isFa && core.FieldOfAddr(fa).Name() == "TxHashes" {
+					starts = append(starts, in)
+					what = append(what, "a hash appended to a miniblock")
+				}
+			}
+			// the branch taken for errors.Is(err, process.ErrFailedTransaction)
+			if ifi, ok := in.(*ssa.If); ok {
+				if call, isCall := ifi.Cond.(*ssa.Call); isCall && core.CallDesc(&call.Call).Is("errors", "", "Is") && len(call.Call.Args) == 2 {
+					if u, isU := call.Call.Args[1].(*ssa.UnOp); isU {
+						if g, isG := u.X.(*ssa.Global); isG && g.Name() == "ErrFailedTransaction" {
+							if first := ifi.Block().Succs[0]; len(first.Instrs) > 0 {
+								starts = append(starts, first.Instrs[0])
+								what = append(what, "a transaction classified as failed (its hash goes into the invalid-transactions miniblock)")
+							}
+						}
+					}
+				}
+			}
+		})
+		for i, from := range starts {
+			l := core.InnermostLoop(fn, from.Block())
+			if l == nil {
+				continue
+			}
+			q := core.PathQ{Fn: fn, From: from, Via: counts, Target: func(x ssa.Instruction, _ *ssa.BasicBlock) bool { return x == l.Header.Instrs[0] }}
+			if counts(from) {
+				continue
+			}
+			esc, path := q.Escape()
+			c.Check(esc == nil, "C33/every-selected-hash-is-counted", fmt.Sprintf("transactions.createAndProcessMiniBlocksFromMe/site#%d", i+1), from.Pos(),
+				what[i]+" is followed by AddNumTxs before the next pass",
+				"in createAndProcessMiniBlocksFromMe "+what[i]+" can reach the next pass of the selection loop without AddNumTxs ("+c.P.PathString(path)+"): the hash is in the body but not in the running total, and the size test keeps admitting transactions after the body is full")
+		}
+		c.Floor("C33/every-selected-hash-is-counted", 2)
+	}
 	// S4
 	if fn := anchorM(c, pkg, "blockSizeComputation", "precomputeValues"); fn != nil {
 		measure := func(v ssa.Value) (mbs, hashes int64, ok bool) {
